@@ -31,6 +31,12 @@ func init() {
 				sp := c18Spell[r.Intn(len(c18Spell))]
 				imports = append(imports, strings.Replace(sp, "%s", nm, 1))
 			}
+			if i%5 == 4 {
+				// a non-empty DIRECTORY whose name ends in .proto at the top level: the cleanup removes files by name
+				// at the top level only — it must fail on the directory (or leave it), never descend into it
+				emit("c18.prep", strings.Join(encAll(files), ","), strings.Join(encAll(imports), ","), "dir")
+				continue
+			}
 			emit("c18.prep", strings.Join(encAll(files), ","), strings.Join(encAll(imports), ","))
 		}
 	})
@@ -55,8 +61,24 @@ func init() {
 		os.WriteFile(filepath.Join(w.Proto, "common", "base.proto"), []byte("sub"), 0o644)
 		outside := filepath.Join(w.Root, "outside.proto")
 		os.WriteFile(outside, []byte("o"), 0o644)
+		withDir := len(a) > 2 && a[2] == "dir"
+		if withDir {
+			os.MkdirAll(filepath.Join(w.Proto, "zz.legacy.proto", "v1"), 0o755)
+			os.WriteFile(filepath.Join(w.Proto, "zz.legacy.proto", "README.md"), []byte("r"), 0o644)
+			os.WriteFile(filepath.Join(w.Proto, "zz.legacy.proto", "v1", "api.proto"), []byte("a"), 0o644)
+		}
 		if err := verifhook.PrepareOutdir(w.Proto, imports, true); err != nil {
+			if withDir {
+				if _, e := os.Stat(filepath.Join(w.Proto, "zz.legacy.proto", "v1", "api.proto")); e != nil {
+					return "err NESTED-REMOVED"
+				}
+			}
 			return "err"
+		}
+		if withDir {
+			if _, e := os.Stat(filepath.Join(w.Proto, "zz.legacy.proto", "v1", "api.proto")); e != nil {
+				return "NESTED-REMOVED"
+			}
 		}
 		ents, _ := os.ReadDir(w.Proto)
 		var left []string
